@@ -905,7 +905,6 @@ def _eq_operator(env_id, nm, s1, s2):
 def eval_static(case):
     """Instantiate a shipped id twice; class, documented configuration, equal specs.
     -> (fails, n_checks)"""
-    import jumanji
     import jumanji.environments as E
     import jumanji.registration as reg
 
@@ -949,7 +948,6 @@ def eval_static(case):
         if d:
             fails.append(("spec.walker", f"{nm}s of two make() results differ", f"{env_id}: " + "; ".join(d[:6])))
         fails.extend(_eq_operator(env_id, nm, s1, s2))
-    del jumanji
     return fails, n
 
 
